@@ -81,7 +81,7 @@ func (q *MultiOpQueryer) Subscribe(req *requests.Request, closeCh <-chan struct{
 				return
 			}
 			// indicate that it's done
-			simhook.Yield("sub.reader.done")
+			simhook.YieldOn("sub.reader.done", resCh)
 			resCh <- nil
 		}()
 
@@ -132,7 +132,7 @@ func (q *MultiOpQueryer) Subscribe(req *requests.Request, closeCh <-chan struct{
 				if innerErr := json.Unmarshal(msg, &serverErrorResp); innerErr != nil {
 					return
 				}
-				simhook.Yield("sub.reader.send")
+				simhook.YieldOn("sub.reader.send", resCh)
 				resCh <- &requests.Response{
 					Errors: serverErrorResp.Payload,
 				}
@@ -146,7 +146,7 @@ func (q *MultiOpQueryer) Subscribe(req *requests.Request, closeCh <-chan struct{
 				requests.SubError:
 				return
 			case requests.SubData:
-				simhook.Yield("sub.reader.send")
+				simhook.YieldOn("sub.reader.send", resCh)
 				resCh <- serverResp.Payload
 			}
 		}
